@@ -107,6 +107,88 @@ def _gen_cmp(rng, cols):
     return ["cmp", op, col, rng.choice([s for s in STRS if s] + ["m"])]
 
 
+# ---- date operands (oracle only: the model has no dates) ----
+D_MONS = ["jan", "feb", "mar", "apr", "may", "jun", "jul", "aug", "sep", "oct", "nov", "dec"]
+D_POOL = [[2018, 1, 15, 0, 0, 0], [2018, 1, 15, 10, 20, 0], [2018, 1, 15, 10, 20, 30], [2018, 1, 1, 0, 0, 0],
+          [1999, 12, 31, 23, 59, 59], [2000, 2, 29, 0, 0, 0], [1993, 6, 1, 0, 0, 0], [2031, 11, 9, 7, 5, 0]]
+
+
+def _q_spellings(inst):
+    """the ways the query grammar lets one write an instant: YYYY-MM[-DD] or [DD-]MM-YY[YY], the month as a
+    number or a lower-case abbreviation, and an optional time (HH:MM[:SS]) in parentheses or HH:MM:SS after a blank"""
+    y, mo, d, h, mi, sec = inst
+    mon = D_MONS[mo - 1]
+    dates = ["%d-%d-%d" % (y, mo, d), "%d-%02d-%02d" % (y, mo, d), "%d-%s-%d" % (y, mon, d),
+             "%d-%d-%d" % (d, mo, y), "%02d-%02d-%d" % (d, mo, y), "%d-%s-%d" % (d, mon, y)]
+    if 1993 <= y <= 2092:
+        dates += ["%d-%d-%02d" % (d, mo, y % 100), "%d-%s-%02d" % (d, mon, y % 100)]
+    if d == 1:
+        dates += ["%d-%d" % (y, mo), "%d-%s" % (y, mon), "%s-%d" % (mon, y), "%d-%d" % (mo, y)]
+    times = [""] if (h, mi, sec) == (0, 0, 0) else []
+    times += [" %02d:%02d:%02d" % (h, mi, sec), " (%02d:%02d:%02d)" % (h, mi, sec), "(%02d:%02d:%02d)" % (h, mi, sec)]
+    if sec == 0:
+        times += [" (%02d:%02d)" % (h, mi), "(%02d:%02d)" % (h, mi)]
+    return [a + b for a in dates for b in times]
+
+
+def _f_spellings(inst):
+    """spellings of an instant in a stored field"""
+    y, mo, d, h, mi, sec = inst
+    mon = D_MONS[mo - 1]
+    dates = ["%d-%d-%d" % (d, mo, y), "%d-%s-%d" % (d, mon, y), "%d-%s-%d" % (d, mon.upper(), y),
+             "%d-%02d-%02d" % (y, mo, d)]
+    times = [""] if (h, mi, sec) == (0, 0, 0) else []
+    times += [" %02d:%02d:%02d" % (h, mi, sec), " (%02d:%02d:%02d)" % (h, mi, sec)]
+    return [a + b for a in dates for b in times]
+
+
+def _gen_dcmp(rng):
+    """(tree over instants, query text)"""
+    r = rng.random()
+    if r < 0.6:
+        op = rng.choice(OPS[:6])
+        inst = rng.choice(D_POOL)
+        return ["cmp", op, "i-date", inst], "i-date %s %s" % (op, rng.choice(_q_spellings(inst)))
+    if r < 0.8:
+        op = rng.choice(OPS[:6])
+        v = rng.choice([0, 10, 20, 30])
+        return ["cmp", op, "i-id", v], "i-id %s %d" % (op, v)
+    op = rng.choice(["==", "!=", "~", "!~"])
+    v = rng.choice(["abc", "x y"]) if op in ("==", "!=") else rng.choice(["a", "^x", "c$"])
+    return ["cmp", op, "i-input", v], 'i-input %s "%s"' % (op, v)
+
+
+def _gen_dcond(rng, depth):
+    r = rng.random()
+    if depth <= 0 or r < 0.45:
+        return _gen_dcmp(rng)
+    if r < 0.85:
+        op = "and" if r < 0.65 else "or"
+        subs = [_gen_dcond(rng, depth - 1) for _ in range(rng.randrange(2, 4))]
+        return [op, [t for t, _ in subs]], "(" + (" %s " % op).join(x for _, x in subs) + ")"
+    t, x = _gen_dcond(rng, depth - 1)
+    return ["not", t], "(not %s)" % x
+
+
+D_MISMATCH = ['i-date == 3', 'i-date == "abc"', 'i-date < 3', 'i-id == 2018-1-15', 'i-input == 2018-1-15',
+              'i-id < 15-jan-2018', 'i-input != jan-2018', 'i-id == 10 and i-date == "2018-1-15"',
+              'not i-date == 20180115', 'i-id >= 0 or i-input == 1-2018']
+
+
+def _gen_dselect(rng):
+    rows = []
+    for i in range(rng.randrange(0, 7)):
+        inst = rng.choice(D_POOL + [None])
+        rows.append([str(i * 10) if rng.random() < 0.9 else "", rng.choice(STRS),
+                     inst, "" if inst is None else rng.choice(_f_spellings(inst))])
+    rng.shuffle(rows)
+    proj = rng.sample(["i-id", "i-input", "i-date"], rng.randrange(1, 4))
+    if rng.random() < 0.15:
+        return {"k": "dselect", "rows": rows, "proj": proj, "tree": None, "text": rng.choice(D_MISMATCH), "bad": True}
+    t, x = _gen_dcond(rng, 2)
+    return {"k": "dselect", "rows": rows, "proj": proj, "tree": t, "text": x, "bad": False}
+
+
 def _gen_cond(rng, cols, depth):
     r = rng.random()
     if depth <= 0 or r < 0.4:
@@ -165,6 +247,10 @@ def gen(rng, tier):
         if all(not (t.startswith('"') and not t.endswith('"')) and not (t.endswith('"') and not t.startswith('"'))
                for t in toks):
             cases.append({"k": "tokparse", "toks": toks})
+    for _ in range(n // 3):
+        t, x = _gen_dcond(rng, 2)
+        cases.append({"k": "dprinted", "tree": t, "text": x})
+        cases.append(_gen_dselect(rng))
     for _ in range(n):
         db = _gen_db(rng)
         shape = rng.random()
@@ -214,6 +300,8 @@ def _has_mismatch(c):
 
 
 def nontrivial(c):
+    if c["k"] in ("dprinted", "dselect"):
+        return True
     if c["k"] == "printed":
         return c["c"][0] != "cmp"
     if c["k"] == "tokparse":
@@ -269,9 +357,97 @@ def _mkdb(db):
     return d
 
 
+def _dtree(t):
+    """impl condition tuple -> list form with instants for datetimes"""
+    import datetime
+    op, body = t
+    if op in ("and", "or"):
+        return [op, [_dtree(x) for x in body]]
+    if op == "not":
+        return ["not", _dtree(body)]
+    col, val = body
+    if isinstance(val, datetime.datetime):
+        if val.microsecond or val.tzinfo is not None:
+            return ["cmp", op, col, repr(val)]
+        val = [val.year, val.month, val.day, val.hour, val.minute, val.second]
+    return ["cmp", op, col, val]
+
+
+def _flat(t):
+    """and/or of one operand cannot be written; nested same-operator groups are kept by the parentheses"""
+    return t
+
+
+def _d_db(c):
+    return [{"name": "item",
+             "fields": [["i-id", ":integer", True], ["i-input", ":string", False], ["i-date", ":date", False]],
+             "rows": [[r[0], r[1], r[3]] for r in c["rows"]]}]
+
+
+def _d_observe(c):
+    import shutil
+    import warnings
+    from delphin import tsql, tsdb
+    with warnings.catch_warnings():
+        warnings.simplefilter("ignore")
+        if c["k"] == "dprinted":
+            try:
+                q = tsql.inspect_query("select x where " + c["text"])
+            except Exception as e:
+                return {"err": type(e).__name__}
+            return {"cond": _dtree(q["condition"])}
+        d = _mkdb(_d_db(c))
+        try:
+            try:
+                rows = [list(r) for r in tsql.select("%s where %s" % (" ".join(c["proj"]), c["text"]), tsdb.Database(d))]
+                return {"rows": rows}
+            except Exception as e:
+                return {"err": type(e).__name__}
+        finally:
+            shutil.rmtree(d, ignore_errors=True)
+
+
+def _d_oracle(c):
+    o = _d_observe(c)
+    if c["k"] == "dprinted":
+        if o.get("cond") != c["tree"]:
+            return "parsing %r returns %r, not the tree %r" % (c["text"], o.get("cond", o.get("err")), c["tree"])
+        return None
+    if c["bad"]:
+        if o.get("err") != "TSQLError":
+            return "the condition %r mixes a literal with a column of another type and was not rejected: %r" % (
+                c["text"], o)
+        return None
+    if "err" in o:
+        return "select raised %s on the valid query %r" % (o["err"], c["text"])
+    import datetime
+
+    def ev(t, row):
+        if t[0] == "cmp":
+            v = {"i-id": None if row[0] == "" else int(row[0]), "i-input": row[1] or None,
+                 "i-date": None if row[2] is None else datetime.datetime(*row[2])}[t[2]]
+            if v is None:
+                return t[1] == "!~"
+            x = datetime.datetime(*t[3]) if isinstance(t[3], list) else t[3]
+            return {"==": lambda: v == x, "!=": lambda: v != x, "<": lambda: v < x, "<=": lambda: v <= x,
+                    ">": lambda: v > x, ">=": lambda: v >= x,
+                    "~": lambda: bool(re.search(x, v)), "!~": lambda: not re.search(x, v)}[t[1]]()
+        if t[0] == "not":
+            return not ev(t[1], row)
+        return (all if t[0] == "and" else any)(ev(x, row) for x in t[1])
+    idx = {"i-id": 0, "i-input": 1, "i-date": 3}
+    want = [[(r[idx[p]] or None) for p in c["proj"]] for r in c["rows"] if ev(c["tree"], r)]
+    if o["rows"] != want:
+        return "select %s where %s returns %r, the stored rows satisfying it are %r" % (
+            " ".join(c["proj"]), c["text"], o["rows"][:5], want[:5])
+    return None
+
+
 def observe(c):
     import shutil
     from delphin import tsql, tsdb
+    if c["k"] in ("dprinted", "dselect"):
+        return _d_observe(c)
     if c["k"] in ("printed", "tokparse"):
         text = "x where " + _cond_text(c["c"]) if c["k"] == "printed" else "x " + " ".join(c["toks"])
         try:
@@ -419,6 +595,8 @@ def _oracle_rows(c):
 
 def oracle(c):
     from delphin import tsql
+    if c["k"] in ("dprinted", "dselect"):
+        return _d_oracle(c)
     if c["k"] == "printed":
         text = "select x where " + _cond_text(c["c"])
         q = tsql.inspect_query(text)
@@ -431,6 +609,8 @@ def oracle(c):
     if "err" in o:
         if any(_has_mismatch(t) for t in c["q"]["conds"]):
             return None
+        if _oracle_rows(c) is not None and o["err"] in ("TSQLError", "TSQLSyntaxError"):
+            return "select raised %s on the valid query %r" % (o["err"], _query_text(c["q"]))
         return None
     if any(_has_mismatch(t) for t in c["q"]["conds"]):
         return "a literal whose type does not match its column was evaluated instead of rejected"
@@ -555,6 +735,8 @@ def _oracle_table(c):
 
 
 def coq_case(c, o):
+    if c["k"] in ("dprinted", "dselect"):
+        return None                      # dates are decided by the oracle (no date model)
     if "exc" in o:
         raise ValueError("harness")
     if c["k"] == "printed":
